@@ -1,8 +1,8 @@
 #!/bin/bash
 # round2.sh <ID>: confirm both round-2 seeded changes of <ID> and run the property's check against each
-ID=$1
+ID=$1; R=${2:-2}
 for k in 1 2; do
-  /verif/bin/confirm_seed.sh $ID $k 2 | tail -2
-  N=$((k+2))
+  /verif/bin/confirm_seed.sh $ID $k $R | tail -2
+  N=$((k+2)); [ "$R" = "3" ] && N=$((k+4))
   [ -d /verif/seeded/$ID-m$N ] && /verif/bin/run_seed.sh $ID-m$N
 done
